@@ -283,6 +283,18 @@ void gen_samples(const psig_t *ps, uint64_t vseed, int64_t sid, uint32_t n, uint
     }
 }
 
+/* the size argument of the threaded writer's annotation / user-data calls: the header says it is ignored for every storage
+ * type but BINARY, so for strings the callers pass nothing, too little, the exact size or too much (the buffer is exact) */
+uint32_t twr_size_arg(uint8_t stype, uint32_t dsize, uint64_t dseed) {
+    if (stype == JLS_STORAGE_TYPE_BINARY) return dsize;
+    switch ((dseed >> 7) % 4) {
+        case 0: return 0;
+        case 1: return 1;
+        case 2: return dsize + 1000;
+        default: return dsize;
+    }
+}
+
 uint8_t *gen_payload(uint8_t stype, uint32_t dsize, uint64_t dseed) {
     uint8_t *b = malloc(dsize ? dsize : 1);
     if (!b) return NULL;
@@ -523,7 +535,7 @@ static int32_t exec_op_twr(struct jls_twr_s *wr, const prog_t *p, op_t *o) {
         case OP_ANNO: {
             uint8_t *b = gen_payload(o->stype, o->dsize, o->dseed);
             v_api("jls_twr_annotation");
-            rc = jls_twr_annotation(wr, o->id, o->ts, o->y, o->atype, o->group, o->stype, b, o->dsize);
+            rc = jls_twr_annotation(wr, o->id, o->ts, o->y, o->atype, o->group, o->stype, b, twr_size_arg(o->stype, o->dsize, o->dseed));
             free(b);
             break;
         }
@@ -531,7 +543,7 @@ static int32_t exec_op_twr(struct jls_twr_s *wr, const prog_t *p, op_t *o) {
         case OP_USER: {
             uint8_t *b = gen_payload(o->stype, o->dsize, o->dseed);
             v_api("jls_twr_user_data");
-            rc = jls_twr_user_data(wr, o->meta, o->stype, b, o->dsize);
+            rc = jls_twr_user_data(wr, o->meta, o->stype, b, twr_size_arg(o->stype, o->dsize, o->dseed));
             free(b);
             break;
         }
